@@ -44,6 +44,7 @@ type world struct {
 	pipes []mangos.Pipe
 	close bool // hook closes the next pipe during Attaching
 	n     int
+	byAddr map[string]int // pipes attached so far, by the address of the endpoint that made them
 }
 
 // provoke runs one operation that fails in a documented way and checks the error.
@@ -192,7 +193,11 @@ var failures = []failure{
 		if w.k.NeedReq {
 			expect("Send(no request)", call("Send-protostate", 0, func() error { return w.x.Send("x") }), mangos.ErrProtoState)
 		} else {
-			expect("Recv(nothing outstanding)", call("Recv-protostate", 0, func() error { _, err := w.x.Recv(); return err }), mangos.ErrProtoState)
+			// (an earlier failure may have left a request outstanding: then this Recv legitimately waits,
+			// so it is given a deadline and either outcome is a returned call)
+			_ = w.x.S.SetOption(mangos.OptionRecvDeadline, 50*time.Millisecond)
+			expect("Recv(nothing outstanding)", call("Recv-protostate", time.Second, func() error { _, err := w.x.Recv(); return err }), mangos.ErrProtoState, mangos.ErrRecvTimeout)
+			_ = w.x.S.SetOption(mangos.OptionRecvDeadline, time.Hour)
 		}
 	}},
 	{"unsupported-op", func(w *world) bool { return !w.k.CanSend || !w.k.CanRecv || !w.k.Ctx }, func(w *world) {
@@ -268,7 +273,7 @@ var failures = []failure{
 		kit.Quiesce()
 		kit.Sleep(50 * time.Millisecond)
 		kit.Quiesce()
-		if len(w.pipes) != before+1 {
+		if w.byAddr["tcp://"+addr] != 1 && !(w.single() && len(w.pipes) > before) {
 			kit.Failf("listener-stopped-accepting:tcp", "%s: after two peers hung up during the handshake a well-behaved TCP peer does not attach any more", w.k.Name)
 		}
 		g.Reset()
@@ -304,7 +309,8 @@ var failures = []failure{
 		last := ep.Dialed[len(ep.Dialed)-1]
 		last.Feed(hdr)
 		kit.Quiesce()
-		if len(w.pipes) != before+1 {
+		// (a single-peer pattern may have given its slot to another dialer of an earlier step meanwhile)
+		if w.byAddr["tcp://"+addr] != 1 && !(w.single() && len(w.pipes) > before) {
 			kit.Failf("dialer-stopped-redialling:tcp-attach", "%s: the redialled connection completed its handshake but did not attach", w.k.Name)
 		}
 		kit.Count("dialer-still-redials")
@@ -424,6 +430,10 @@ func (w *world) hook(ev mangos.PipeEvent, p mangos.Pipe) {
 	}
 	if ev == mangos.PipeEventAttached {
 		w.pipes = append(w.pipes, p)
+		if w.byAddr == nil {
+			w.byAddr = map[string]int{}
+		}
+		w.byAddr[p.Address()]++
 	}
 }
 
@@ -546,8 +556,12 @@ func transportErrors() {
 
 // dropAllPeers: patterns that take a single peer lose the ones they have, so that the next
 // connection can attach.
+func (w *world) single() bool {
+	return w.k.Name == "pair" || w.k.Name == "xpair" || w.k.Name == "pair1" || w.k.Name == "xpair1"
+}
+
 func (w *world) dropAllPeers() {
-	if w.k.Name != "pair" && w.k.Name != "xpair" && w.k.Name != "pair1" && w.k.Name != "xpair1" {
+	if !w.single() {
 		return
 	}
 	vt.DropAll()
